@@ -195,11 +195,8 @@ let rec scope_names_f1 (e : expr) : string list =
     "LOOP" :: (scope_names_f1 i @ scope_names_f1 st @ scope_names_f1 t @ List.concat_map scope_names_f1 body)
   | _ -> []
 
-let listing_f1 (forms : expr list) : string =
-  let e = EBegin forms in
-  if not (f1_ok e && cc [] e) then "NOTF1"
-  else begin
-    let names = ref (scope_names_f1 e) in
+let show_f1 (names0 : string list) (fname : string) (code : instr0 list) : string =
+    let names = ref names0 in
     let loopnames : (int, string) Hashtbl.t = Hashtbl.create 8 in
     let lname id = let i = int_of_nat id in
       (match Hashtbl.find_opt loopnames i with
@@ -231,27 +228,43 @@ let listing_f1 (forms : expr list) : string =
       | IPopUntilMark id -> "pop-until-stack-mark " ^ lname id
       | IClearMark id -> "clear-stack-mark " ^ lname id
       | IBreak (id, k) -> "break " ^ lname id ^ " pop=" ^ ni k
-      | ICont (id, k) -> "continue " ^ lname id ^ " pop=" ^ ni k in
-    String.concat ";" (List.map show (f1_gen f1_top O e))
-  end
+      | ICont (id, k) -> "continue " ^ lname id ^ " pop=" ^ ni k
+      | IAddFuncScope -> "add func scope runtime " ^ fname
+      | IReturn -> "ret" in
+    String.concat ";" (List.map show code)
+
+let listing_f1 (forms : expr list) : string =
+  let e = EBegin forms in
+  if not (f1_ok e && cc [] e) then "NOTF1"
+  else show_f1 (scope_names_f1 e) "" (f1_gen f1_top O e)
+
+(* bytecode=3: one (defn NAME (P..) - BODY..): the code of the function body (GenF1.fun_code) *)
+let listing_fn (forms : expr list) : string =
+  match forms with
+  | [EDefn (nm, ps, None, body)] ->
+    if List.for_all f1_ok body && f1_init_ne body && List.for_all (cc []) body
+    then show_f1 (List.concat_map scope_names_f1 body) (name_of nm) (f1_fun_code ps body)
+    else "NOTF2"
+  | _ -> "NOTF2"
 
 let () =
   iter_lines (fun line ->
     match split_tab line with
     | id :: body :: _ ->
       (try
-        let fuel = ref 300 and failat = ref 0 and bytecode = ref false and f1mode = ref false in
+        let fuel = ref 300 and failat = ref 0 and bytecode = ref false and f1mode = ref false and fnmode = ref false in
         let toks = tokenize body in
         let rec opts = function
           | t :: r when String.length t > 5 && String.sub t 0 5 = "fuel=" -> fuel := int_of_string (String.sub t 5 (String.length t - 5)); opts r
           | t :: r when String.length t > 7 && String.sub t 0 7 = "failat=" -> failat := int_of_string (String.sub t 7 (String.length t - 7)); opts r
           | "bytecode=1" :: r -> bytecode := true; opts r
           | "bytecode=2" :: r -> bytecode := true; f1mode := true; opts r
+          | "bytecode=3" :: r -> bytecode := true; fnmode := true; opts r
           | t :: r when t <> "(" && t <> ")" && String.contains t '=' && t <> "==" && t <> "!=" && t <> "<=" && t <> ">=" -> opts r
           | r -> r in
         let toks = opts toks in
         let forms = List.map expr_of (parse_all toks) in
-        if !bytecode then Printf.printf "%s\t%s\t-\n%!" id (if !f1mode then listing_f1 forms else listing forms)
+        if !bytecode then Printf.printf "%s\t%s\t-\n%!" id (if !fnmode then listing_fn forms else if !f1mode then listing_f1 forms else listing forms)
         else begin
           let o = eval_program_cfg (nat_of_int !fuel) (nat_of_int !failat) forms in
           Printf.printf "%s\t%s\t-\n%!" id (show_outcome o)
